@@ -5,8 +5,8 @@
    OPERANDS, the wfm/rfm dispatch tables, LANG_TYPES, SECTION_IDS.  The text form is NOT modelled
    (validated by round trip in the check).  [rt w r a] = the writer succeeds with some bytes bb and
    the reader returns (a, rest) from bb ++ rest for every rest. *)
-From PV Require Import Lib.Py Model.WasmTypes Gen.Tab_wasm_opcodes Model.WasmBin Model.WasmCanon Model.WasmText Model.WasmBinVal Spec.WasmOpcodeSpec
-  Proofs.C21_leb Proofs.C21_instr Proofs.C21_defs Proofs.C21_module Proofs.C21_spec Proofs.C21_canon Proofs.C21_text.
+From PV Require Import Lib.Py Model.WasmTypes Gen.Tab_wasm_opcodes Gen.Tab_wasm_text Model.WasmBin Model.WasmCanon Model.WasmText Model.WasmTextDefs Model.WasmBinVal Spec.WasmOpcodeSpec
+  Proofs.C21_leb Proofs.C21_instr Proofs.C21_defs Proofs.C21_module Proofs.C21_spec Proofs.C21_canon Proofs.C21_text Proofs.C21_textdefs.
 From Coq Require Import String Ascii.
 Local Open Scope string_scope.
 Local Open Scope list_scope.
@@ -285,8 +285,12 @@ Qed.
    restricted to the writer's output.  [fs] = Python's float spelling (repr) and float(), a
    parameter: a float constant is in scope when [float_ok fs raw] (its spelling reads back).
    [wf_text] lists the proved classes: block/loop/if with block type, every mnemonic whose operands
-   are indices, i32/i64 (two's-complement range), f32/f64, u32; load/store with offset=/align=
-   keywords; br_table; memory.size/grow; call_indirect on table 0; select with result types. *)
+   are indices, i32/i64 (two's-complement range), f32/f64, u32, and u8 (memory / lane index) once the
+   parser consumes it ([text_u8_consumes], probed on the implementation); load/store with offset=/
+   align= keywords; br_table; memory.size/grow; call_indirect (any table once it is printed
+   table-first, [text_ci_table_first]); select with result types.  With the two repairs applied
+   [wf_text] has no exception left among the instructions the binary codec supports, except the
+   v128 lane loads/stores (three operands), which the text model does not cover. *)
 Theorem c21_text_decimal : forall z, undec (dec z) = Some z /\ lex_word (dec z) = TInt z.
 Proof. intros z. split; [apply undec_dec|apply lex_dec]. Qed.
 Print Assumptions c21_text_decimal.
@@ -305,13 +309,13 @@ Proof. exact text_body_rt. Qed.
 Print Assumptions c21_text_body_roundtrip.
 
 (* refuted rows (defects of the text form, re-executed on the implementation by the check) *)
-Theorem c21_text_u8_operand_refuted : forall fs,
+Theorem c21_text_u8_operand_refuted : forall fs, text_u8_consumes = false ->
   exists ps, print_instr fs (Instr "memory.fill" [AInt 0]) = Ok ps /\
              parse_instr fs (lex ps) = Ok (Instr "memory.fill" [AInt 0], [TInt 0]).
 Proof. exact text_u8_operand_refuted. Qed.
 Print Assumptions c21_text_u8_operand_refuted.
 
-Theorem c21_text_call_indirect_table_refuted : forall fs,
+Theorem c21_text_call_indirect_table_refuted : forall fs, text_ci_table_first = false ->
   exists ps, print_instr fs (Instr "call_indirect" [ARef "type" 0; ARef "table" 1]) = Ok ps /\
              parse_instrs fs 10 (lex ps) = Diag 12.
 Proof. exact text_call_indirect_table_refuted. Qed.
@@ -364,4 +368,34 @@ Proof.
   exists ps. split; [reflexivity|]. split.
   - vm_compute in E. injection E as <-. reflexivity.
   - apply (c21_text_body_roundtrip toy_fs text_example ps 40%nat); [vm_compute; reflexivity|exact E|cbn; lia].
+Qed.
+
+(* ================= text form, definition level (Model.WasmTextDefs; tie H) =================
+   memory, table, global and func definitions as the writer prints them for a module read from binary
+   (ids are comments, numeric references, one anonymous (local ...) group); the parser's functions
+   restricted to that output.  Not covered (validation only): type, import, export, start, elem, data. *)
+Theorem c21_text_instr_list_roundtrip : forall fs l ps fuel tail,
+  forallb (wf_text fs) l = true -> print_instrs fs l = Ok ps -> (List.length l < fuel)%nat ->
+  at_instruction tail = false -> safe_next tail = true ->
+  parse_instr_list fs fuel (lex ps ++ tail) = Ok (l, tail).
+Proof. exact instr_list_rt. Qed.
+Print Assumptions c21_text_instr_list_roundtrip.
+
+Theorem c21_text_def_roundtrip : forall fs d ps rest,
+  wf_text_def fs d = true -> print_def fs d = Ok ps ->
+  parse_def fs (lex ps ++ rest) = Ok (d, rest).
+Proof. exact text_def_rt. Qed.
+Print Assumptions c21_text_def_roundtrip.
+
+Example c21_text_def_nonvacuous :
+  let f := DFunc ("type", 1) ["i32"; "f64"] text_example in
+  let g := DGlobal "i64" true [Instr "i64.const" [AInt (-1)]] in
+  forallb (wf_text_def toy_fs) [f; g; DMemory 1 (Some 2); DTable "funcref" 2 None] = true /\
+  (exists ps, print_def toy_fs f = Ok ps /\ parse_def toy_fs (lex ps) = Ok (f, [])).
+Proof.
+  split; [vm_compute; reflexivity|].
+  destruct (print_def toy_fs (DFunc ("type", 1) ["i32"; "f64"] text_example)) as [ps| | |] eqn:E;
+    try (vm_compute in E; discriminate E).
+  exists ps. split; [reflexivity|].
+  rewrite <- (app_nil_r (lex ps)). apply c21_text_def_roundtrip; [vm_compute; reflexivity|exact E].
 Qed.
